@@ -1,7 +1,7 @@
 (* Css/SelProofs.v -- the model of Css/Sel.v meets the specification of
    Css/SelSpec.v: string predicates, an+b arithmetic, structural counting,
    combinators, and the main theorem matches_spec; specificity. *)
-From Verif Require Import Css.Sel Css.SelSpec.
+From Verif Require Import Css.Sel Css.SelSpec Css.SelWitness.
 From Coq Require Import ZArith NArith Lia List Bool Arith ZifyBool ZifyNat ZifyN.
 Import ListNotations.
 
@@ -1384,19 +1384,7 @@ Close Scope Z_scope.
 
 (* ------------------------------------------------------------------ the two deviations are real *)
 
-Definition bN (l : list N) : str := l.
-Definition t_section : str := [115;101;99;116;105;111;110]%N.
-Definition t_div : str := [100;105;118]%N.
-Definition t_p : str := [112]%N.
-Definition t_title : str := [116;105;116;108;101]%N.
-
-(* <html><section><div><p></p></div></section></html>, and div:has(section p) at the div *)
-Definition w_p := Node TElement t_p [] [].
-Definition w_div := Node TElement t_div [] [w_p].
-Definition w_doc1 := Node TDocument [] [] [Node TElement s_html [] [Node TElement t_section [] [w_div]]].
-Definition w_sel1 := SCompound [STag t_div; SRel RHas [SCombined (STag t_section) CDesc (STag t_p)]] [].
-Definition w_path1 : path := [0; 0; 0].
-
+(* the witnesses are defined in Css/SelWitness.v (the correspondence check replays them on /repo) *)
 Lemma w_below_aux : forall l n, node_at w_doc1 (l ++ w_path1) = Some n ->
   (l = [] /\ n = w_div) \/ (l = [0] /\ n = w_p).
 Proof.
@@ -1416,9 +1404,9 @@ Qed.
 
 (* :has() with a combinator in its argument: the code answers true where Selectors 4 says false *)
 Theorem has_relative_refuted :
-  exists d s p, dom_wf d /\ matches d s p = true /\ ~ spec_matches d s p.
+  dom_wf w_doc1 /\ matches w_doc1 w_sel1 w_path1 = true /\ ~ spec_matches w_doc1 w_sel1 w_path1.
 Proof.
-  exists w_doc1, w_sel1, w_path1. split; [apply dom_wfb_sound; vm_compute; reflexivity|].
+  split; [apply dom_wfb_sound; vm_compute; reflexivity|].
   split; [vm_compute; reflexivity|].
   intros [q H]. unfold w_sel1 in H. cbn [sma] in H. destruct H as [_ [n [_ H]]].
   pose proof (proj1 (each_of_map w_doc1 _ _) H) as H'. clear H. rename H' into H. specialize (H (SRel RHas [SCombined (STag t_section) CDesc (STag t_p)]) (or_intror (or_introl eq_refl))).
@@ -1428,18 +1416,14 @@ Proof.
   destruct Ha as [l [Hl ->]]. pose proof (w_below l m Hl Hm) as ->. discriminate Hd.
 Qed.
 
-(* <html title="  ">, and [title^=" "] *)
-Definition w_doc2 := Node TDocument [] [] [Node TElement s_html [Attr t_title [32; 32]%N] []].
-Definition w_sel2 := SAttr t_title [32%N] OpPrefix false.
-
 (* a blank attribute value: the code answers false where Selectors 4 says true *)
 Theorem blank_attr_refuted :
-  exists d s p, dom_wf d /\ matches d s p = false /\ spec_matches d s p.
+  dom_wf w_doc2 /\ matches w_doc2 w_sel2 w_path2 = false /\ spec_matches w_doc2 w_sel2 w_path2.
 Proof.
-  exists w_doc2, w_sel2, [0]. split; [apply dom_wfb_sound; vm_compute; reflexivity|].
+  split; [apply dom_wfb_sound; vm_compute; reflexivity|].
   split; [vm_compute; reflexivity|].
-  exists [0]. unfold w_sel2. cbn [sma]. split; [reflexivity|].
-  exists (Node TElement s_html [Attr t_title [32; 32]%N] []). split; [split; reflexivity|].
+  exists w_path2. unfold w_sel2. cbn [sma]. split; [reflexivity|].
+  exists (Node TElement s_html [Attr t_title [32; 32]%N] [Node TElement t_head [] []; Node TElement t_body [] []]). split; [split; reflexivity|].
   exists (Attr t_title [32; 32]%N). split; [left; reflexivity|]. split; [reflexivity|].
   split; [discriminate|]. exists [32%N], [32%N]. split; reflexivity.
 Qed.
@@ -1447,7 +1431,7 @@ Qed.
 (* the hypotheses of matches_spec are inhabited by a non-trivial case *)
 Example matches_spec_inhabited :
   dom_wf w_doc1 /\ sel_supported w_doc1 (SCombined (STag t_section) CDesc (SCompound [STag t_p; SNth (-1) 1 false false] [])) /\
-  matches w_doc1 (SCombined (STag t_section) CDesc (SCompound [STag t_p; SNth (-1) 1 false false] [])) [0; 0; 0; 0] = true.
+  matches w_doc1 (SCombined (STag t_section) CDesc (SCompound [STag t_p; SNth (-1) 1 false false] [])) (0 :: w_path1) = true.
 Proof.
   split; [apply dom_wfb_sound; vm_compute; reflexivity|]. split; [|vm_compute; reflexivity].
   split.
